@@ -48,6 +48,10 @@ type pmCase struct {
 	// its page-table frames, as vmm.Map can): the hand-over reports the error, and boot goes on
 	// making early allocations
 	MapFail int `json:"mapfail,omitempty"`
+	// Grow (C07, non-zero): after the first hand-over the allocator is set up a second time, from
+	// a memory map whose last available region has that many more frames: it reserves and maps
+	// again, and what it maps must again lie inside what it reserved
+	Grow uint64 `json:"grow,omitempty"`
 }
 
 // whole returns the first and last whole frame of a region.
